@@ -196,8 +196,8 @@ Section Reader.
             '(ms, w) <- macbinary_init junk {| mw_dec := d1; mw_ev := [] |} ch ;;
             let d2 := mw_dec w in
             match ms with
-            | None =>                            (* reader->decoder = NULL *)
-              Ok (false, ev ++ mw_ev w, set_decoders r (idec_br d2) None (IR_own d2))
+            | None =>                            (* reader->decoder = NULL; the inner decoder is freed *)
+              Ok (false, ev ++ mw_ev w, set_decoders r (idec_br d2) None IR_null)
             | Some m =>
               let o : odec := lha_decoder_new m {| mw_dec := d2; mw_ev := [] |} (h_length ch) in
               Ok (true, ev ++ mw_ev w, set_decoders r (idec_br d2) (Some (DO_mac o)) IR_same)
